@@ -215,6 +215,12 @@ func (e *Exec) intrinsic(fn *ssa.Function, args []value) value {
 	case "vQuiesce":
 		e.quiesce()
 		return nil
+	case "vDelay":
+		e.delay()
+		return nil
+	case "vRelease":
+		e.release()
+		return nil
 	case "vLockFree":
 		p := args[0].(iface).v.(*value)
 		l := e.lockOf(p)
